@@ -15,6 +15,10 @@ type Prop struct {
 	Real             []string
 	Stub             []string
 	Assume           []string
+	// Parts: this property is decided by several sub-checks (ids with a
+	// lower-case suffix, e.g. C14we, C14wt), possibly in different worlds; the
+	// parent runs them all and merges their evidence. A parent has no World.
+	Parts            []string
 	LevelText        string
 	LevelNote        string
 	Technique        string
@@ -50,9 +54,22 @@ func worldOrder() []string {
 	return ws
 }
 
+func isPart(id string) bool {
+	for _, c := range id[1:] {
+		if c >= 'a' && c <= 'z' {
+			return true
+		}
+	}
+	return false
+}
+
+// propOrder lists the claimed properties (parts excluded).
 func propOrder() []string {
 	var ids []string
 	for id := range props {
+		if isPart(id) {
+			continue
+		}
 		ids = append(ids, id)
 	}
 	sort.Strings(ids)
